@@ -401,9 +401,10 @@ def execute(sc):
     exact = (not mo) and enc == "subset" and sc["exact"] and fam in ("ebv", "gebv", "wgs", "gwgebv")
     if exact:
         if fam == "ebv":
-            crit = numpy.asarray(bv.unscale(), dtype=float).sum(1)
+            crit = numpy.asarray(raw, dtype=float).sum(1)          # the raw values the breeding-value matrix was built from
         elif fam == "gebv":
-            crit = numpy.asarray(gm.gebv(pg).unscale(), dtype=float).sum(1)
+            # dosage x effects from the allele calls (the intercept is common to all candidates)
+            crit = (numpy.asarray(pg.mat).astype(float).sum(0) @ numpy.asarray(gm.u_a, dtype=float)).sum(1)
         else:
             crit = _weighted_gebv(pg, gm, 0.5 if fam == "wgs" else sc.get("alpha", 0.5))
         k = len(decn)
